@@ -146,6 +146,21 @@ macro_rules | `(tactic| quiet_known) => `(tactic| apply chanGet_quiet)
 theorem chanSet_quiet (i : Nat) (c : Chan) : Quiet (chanSet i c) := by unfold chanSet; quiet_tac
 macro_rules | `(tactic| quiet_known) => `(tactic| apply chanSet_quiet)
 
+theorem queueTask_quiet (t : Task) (name : String) : Quiet (queueTask t name) := by unfold queueTask; quiet_tac
+macro_rules | `(tactic| quiet_known) => `(tactic| apply queueTask_quiet)
+
+theorem addBufferedCore_quiet (i : Nat) (a : Int) : Quiet (addBufferedCore i a) := by unfold addBufferedCore; quiet_tac
+macro_rules | `(tactic| quiet_known) => `(tactic| apply addBufferedCore_quiet)
+
+theorem addBuffered0_quiet (i : Nat) (a : Int) : Quiet (addBuffered0 i a) := by unfold addBuffered0; quiet_tac
+macro_rules | `(tactic| quiet_known) => `(tactic| apply addBuffered0_quiet)
+
+theorem dcSend_quiet (i : Nat) (isStr : Bool) (data : Bytes) : Quiet (dcSend i isStr data) := by unfold dcSend; quiet_tac
+macro_rules | `(tactic| quiet_known) => `(tactic| apply dcSend_quiet)
+
+theorem react_quiet (k i : Nat) : Quiet (react k i) := by unfold react; quiet_tac
+macro_rules | `(tactic| quiet_known) => `(tactic| apply react_quiet)
+
 theorem setReady_quiet (i st : Nat) : Quiet (setReady i st) := by unfold setReady; quiet_tac
 macro_rules | `(tactic| quiet_known) => `(tactic| apply setReady_quiet)
 
@@ -157,9 +172,6 @@ macro_rules | `(tactic| quiet_known) => `(tactic| apply sendChunk_quiet)
 
 theorem playTx_quiet (evs : List TxEv) : Quiet (playTx evs) := by unfold playTx; quiet_tac
 macro_rules | `(tactic| quiet_known) => `(tactic| apply playTx_quiet)
-
-theorem queueTask_quiet (t : Task) (n : String) : Quiet (queueTask t n) := by unfold queueTask; quiet_tac
-macro_rules | `(tactic| quiet_known) => `(tactic| apply queueTask_quiet)
 
 theorem transmit_quiet : Quiet transmit := by unfold transmit; quiet_tac
 macro_rules | `(tactic| quiet_known) => `(tactic| apply transmit_quiet)
